@@ -60,9 +60,28 @@ def raw_records(path):
                 info.append((k, rec.info[k]))
             out.append({
                 "chrom": rec.chrom, "pos": rec.start, "id": rec.id, "ref": rec.ref, "alts": rec.alts,
+                "gt_text": {},
                 "qual": rec.qual, "filter": sorted(rec.filter.keys()), "info": info, "format": fmt,
                 "calls": calls,
             })
+    # the GT strings as written (pysam's `phased` flag is true only if every separator is '|')
+    try:
+        with open(path, "r", errors="replace") as f:
+            k = 0
+            for line in f:
+                if line.startswith("#"):
+                    continue
+                cols = line.rstrip("\n").split("\t")
+                if k < len(out) and len(cols) > 9:
+                    fmt = cols[8].split(":")
+                    if "GT" in fmt:
+                        gi = fmt.index("GT")
+                        for s, col in zip(samples, cols[9:]):
+                            parts = col.split(":")
+                            out[k]["gt_text"][s] = parts[gi] if gi < len(parts) else "."
+                k += 1
+    except OSError:
+        pass
     return samples, header_formats, out
 
 
@@ -207,8 +226,8 @@ def compare_unphased(samples, model, got_records, what):
             return [("unphase-changed-field", "%s: %s FORMAT keys changed from %r to %r" % (what, where, m["format"], gfmt), "field:format")]
         for s in samples:
             mc, gc = m["calls"][s], g["calls"][s]
-            if gc["phased"] and gc["gt"] is not None and len(gc["gt"]) > 1:
-                return [("unphase-still-phased", "%s: %s sample %s has phased genotype %r" % (what, where, s, gc["gt"]), "still-phased")]
+            if (gc["phased"] and gc["gt"] is not None and len(gc["gt"]) > 1) or "|" in g.get("gt_text", {}).get(s, ""):
+                return [("unphase-still-phased", "%s: %s sample %s has phased genotype %r (%s)" % (what, where, s, gc["gt"], g.get("gt_text", {}).get(s)), "still-phased")]
             gms = None if gc["gt"] is None else sorted(gc["gt"], key=lambda a: (a is None, a if a is not None else -1))
             if mc["gt_multiset"] != gms:
                 return [("unphase-alleles", "%s: %s sample %s allele multiset changed from %r to %r" % (what, where, s, mc["gt_multiset"], gms), "alleles")]
@@ -400,9 +419,9 @@ ODD_CALLS = {
     "haploid-missing": ["."],
     "diploid-missing": ["./.", ".|."],
     "diploid-partial": ["0/.", "./1", "1|.", ".|0", "./0"],
-    "triploid": ["0/0/1", "0/1/1", "1/1/1", "0|1|1", "1|0|1", "1/0/0", "0/1/2"],
+    "triploid": ["0/0/1", "0/1/1", "1/1/1", "0|1|1", "1|0|1", "1/0/0", "0/1/2", "0|1/1", "1/0|1", "2/1|0"],
     "triploid-partial": ["0/1/.", "./././", "./1/0", "0|.|1", "./././."],
-    "tetraploid": ["0/0/1/1", "0|1|0|1", "1/0/1/0", "1|1|0|0", "0/1/1/1"],
+    "tetraploid": ["0/0/1/1", "0|1|0|1", "1/0/1/0", "1|1|0|0", "0/1/1/1", "0|1/0|1", "1/1|0/0"],
     "diploid": ["0/1", "1/0", "0|1", "1|0", "1/1", "0/0", "1|1", "2/1", "2|0"],
 }
 
